@@ -50,6 +50,9 @@ func init() {
 		Old: "\tq.cancelMtx.Lock()\n\tq.cancel = cancel\n\tq.cancelMtx.Unlock()\n", New: "\tq.cancel = cancel\n", Expect: "cancel"})
 	mutant(Mutant{Rule: "R-GLOBALS", Name: "global-assigned-at-runtime", File: "logicalplan/plan.go",
 		Old: "func (p *plan) Optimize(optimizers []Optimizer) Plan {\n", New: "func (p *plan) Optimize(optimizers []Optimizer) Plan {\n\tDefaultOptimizers = optimizers\n", Expect: "DefaultOptimizers"})
+	mutant(Mutant{Rule: "R-GLOBALS", Name: "shared-hasher", File: "execution/storage/pool.go",
+		Old: "var sep = []byte{'\\xff'}\n", New: "var sep = []byte{'\\xff'}\n\nvar keyHasher = xxhash.New()\n",
+		Old2: "\tsb := xxhash.New()\n", New2: "\tsb := keyHasher\n\tsb.Reset()\n", Expect: "keyHasher"})
 	mutant(Mutant{Rule: "R-ENGINEWO", Name: "engine-field-written-per-query", File: "engine/engine.go",
 		Old: "\tif opts != nil && opts.LookbackDelta > 0 {\n\t\treturn opts.LookbackDelta\n\t}", New: "\tif opts != nil && opts.LookbackDelta > 0 {\n\t\te.lookbackDelta = opts.LookbackDelta\n\t}", Expect: "lookbackDelta"})
 	mutant(Mutant{Rule: "R-FOREIGNAPPEND", Name: "append-into-callers-slice", File: "engine/engine.go",
@@ -741,6 +744,19 @@ func ruleGlobals(p *core.Program) []core.Obligation {
 					note(gl, "map updated")
 				}
 			case *ssa.Call:
+				// a pointer-receiver method invoked on a package-level object mutates shared state
+				// (a hasher, a pool, a buffer); read-only accessors of error values are exempt
+				if callee := x.Call.StaticCallee(); callee != nil && callee.Signature.Recv() != nil && len(x.Call.Args) > 0 {
+					if _, ptr := callee.Signature.Recv().Type().(*types.Pointer); ptr {
+						if gl := core.GlobalOf(x.Call.Args[0]); gl != nil {
+							switch callee.Name() {
+							case "Error", "String", "Is", "Unwrap", "Format", "Lock", "Unlock", "RLock", "RUnlock", "Do":
+							default:
+								note(gl, "mutated through "+callee.Name()+"()")
+							}
+						}
+					}
+				}
 				// sort/slices.Sort on a global slice reorders it in place
 				name := core.CalleeName(&x.Call)
 				if strings.HasPrefix(name, "sort.") || strings.HasPrefix(name, "golang.org/x/exp/slices.Sort") {
